@@ -219,3 +219,67 @@ Arguments apply_weights_code {R} rmul c ds probes.
 Arguments pot_obj {R P} e V _ _.
 Arguments phase_img {R P} e kappa _ _.
 Arguments phase_ramp {R P} e phi _.
+
+(* ================================================================== round-4 additions
+   Integer / index / dispatch logic of the forward pipeline whose SOURCE is re-read and translated on every run
+   (harness/c02_tie.py -> build/C02/Gen_C02.v) and proved equal to these definitions for all arguments
+   (coq/gen_proofs/C02_GenProofs.v, C02_GenProperties.v). *)
+
+(* _set_patch_indices for the whole scan: one block of patch indices per scan position *)
+Definition round_pos (p : Q * Q) : Z * Z := (round_half_even (fst p), round_half_even (snd p)).
+Definition patch_indices_all (H W n m : Z) (pos : list (Q * Q)) : list (list (list Z)) :=
+  map (fun p => patch_indices H W n m (fst (round_pos p)) (snd (round_pos p))) pos.
+
+(* patch_indices_need_update: the rounded positions differ from the ones the cache was computed for *)
+Definition zz_eqb (a b : Z * Z) : bool := (fst a =? fst b) && (snd a =? snd b).
+Fixpoint list_eqb {A} (eqb : A -> A -> bool) (a b : list A) : bool :=
+  match a, b with
+  | [], [] => true
+  | x :: a', y :: b' => eqb x y && list_eqb eqb a' b'
+  | _, _ => false
+  end.
+Definition need_update (cached current : list (Q * Q)) : bool :=
+  negb (list_eqb zz_eqb (map round_pos cached) (map round_pos current)).
+
+(* PtychographyDatasetRaster.forward, index part: refresh the cache when needed, then gather the batch *)
+Definition forward_indices (H W n m : Z) (cached_pos : list (Q * Q)) (cache : list (list (list Z)))
+           (pos : list (Q * Q)) (batch : list Z)
+  : list (list (list Z)) * list (Q * Q) * list (Q * Q) :=
+  let cache' := if need_update cached_pos pos then patch_indices_all H W n m pos else cache in
+  (map (fun b => nth (Z.to_nat b) cache' []) batch,
+   map (fun b => nth (Z.to_nat b) pos (0 # 1, 0 # 1)%Q) batch,
+   map (fun b => let p := nth (Z.to_nat b) pos (0 # 1, 0 # 1)%Q in (frac_part (fst p), frac_part (snd p))) batch).
+
+(* object shape: F = floor(fov / sampling) per axis (float part, not translated) *)
+Definition obj_shape_crop (F : Z) : Z := let s := F + 2 in s + s mod 2.
+Definition obj_shape_full (rshape pad : Z) : Z := rshape + 2 * pad.
+(* adjust_padding_power2 on one axis: None = raises ValueError *)
+Definition adjust_pad_axis (div shape pad : Z) : Z :=
+  let rem := (shape + 2 * pad) mod div in if rem =? 0 then pad else pad + (div - rem) / 2.
+Definition adjust_pad (level s0 s1 p0 p1 : Z) : option (Z * Z) :=
+  let div := 2 ^ level in
+  let q0 := adjust_pad_axis div s0 p0 in
+  let q1 := adjust_pad_axis div s1 p1 in
+  if ((s0 + 2 * q0) mod div =? 0) && ((s1 + 2 * q1) mod div =? 0) then Some (q0, q1) else None.
+
+(* _set_targets: which stored array the loss is compared against *)
+Inductive loss_type := L2_amplitude | L1_amplitude | L2_intensity | L1_intensity | Poisson.
+Inductive tsource := Amplitudes | CenteredAmplitudes | Intensities | CenteredIntensities.
+Definition target_source (lt : loss_type) (descan_learned : bool) : tsource :=
+  match lt with
+  | L2_amplitude | L1_amplitude => if descan_learned then Amplitudes else CenteredAmplitudes
+  | _ => if descan_learned then Intensities else CenteredIntensities
+  end.
+
+(* history of a dataset object: the arrays are identified by the index of the preprocessing that wrote them;
+   preprocess writes all four arrays and then selects the l2_amplitude targets *)
+Inductive dop := Preprocess (descan_learned : bool) | SetTargets (lt : loss_type) (descan_learned : bool).
+Record dstate := { d_version : nat; d_targets : option (tsource * nat) }.
+Definition set_targets (lt : loss_type) (learned : bool) (st : dstate) : dstate :=
+  {| d_version := d_version st; d_targets := Some (target_source lt learned, d_version st) |}.
+Definition dstep (st : dstate) (op : dop) : dstate :=
+  match op with
+  | Preprocess learned => set_targets L2_amplitude learned {| d_version := S (d_version st); d_targets := d_targets st |}
+  | SetTargets lt learned => set_targets lt learned st
+  end.
+Definition drun (ops : list dop) (st : dstate) : dstate := fold_left dstep ops st.
